@@ -3,7 +3,8 @@
 // (synchronously in the link tap) and again when it is handed to the peer's
 // stack; applications log their calls.  One totally ordered event list per
 // scenario; scenarios run concurrently.
-//   tcpd pair <scenarios.json> <out.ndjson> [parallel]
+//
+//	tcpd pair <scenarios.json> <out.ndjson> [parallel]
 package main
 
 import (
@@ -16,8 +17,8 @@ import (
 	"sync/atomic"
 	"time"
 
-	"github.com/brewlin/net-protocol/pkg/waiter"
 	vrand "github.com/brewlin/net-protocol/pkg/rand"
+	"github.com/brewlin/net-protocol/pkg/waiter"
 	tcpip "github.com/brewlin/net-protocol/protocol"
 	"github.com/brewlin/net-protocol/protocol/transport/tcp"
 	"verifh/vh"
@@ -35,29 +36,30 @@ type rule struct {
 }
 
 type dirFaults struct {
-	Rules  []rule  `json:"rules"`
-	Loss   float64 `json:"loss"`
-	Dup    float64 `json:"dup"`
-	Hold   float64 `json:"hold"`
-	Budget int     `json:"budget"` // max number of random faults
-	Replay float64 `json:"replay"` // probability of re-injecting an old data segment later (stale replay)
+	Rules    []rule  `json:"rules"`
+	Loss     float64 `json:"loss"`
+	Dup      float64 `json:"dup"`
+	Hold     float64 `json:"hold"`
+	Budget   int     `json:"budget"`   // max number of random faults
+	Replay   float64 `json:"replay"`   // probability of re-injecting an old data segment later (stale replay)
 	Coalesce float64 `json:"coalesce"` // peer-like: deliver a data segment, then the next one merged with it (partial overlap)
 	Beyond   float64 `json:"beyond"`   // peer-like: also hand over a fabricated segment starting at the receiver's advertised right edge
 }
 
 type app struct {
-	Writes      []int  `json:"writes"`       // chunk sizes, written in order
-	Shutdown    bool   `json:"shutdown"`     // Shutdown(Write) after the last write
-	Close       bool   `json:"close"`        // Close() instead of waiting for EOS once own writes are done and EOS seen
-	ReadMax     int    `json:"read_max"`     // stop reading after this many bytes (0 = until EOS)
-	ReadDelayUS int    `json:"read_delay_us"`
-	ReadStartMS int    `json:"read_start_ms"` // do not read before this
-	WriteGapUS  int    `json:"write_gap_us"`
-	RcvBuf      int    `json:"rcvbuf"`
-	SndBuf      int    `json:"sndbuf"`
-	ISS         []int  `json:"iss"` // [hi, lo] for the active opener (side a) via hook H4
-	ShutAfterMS int    `json:"shut_after_ms"` // delay before shutdown
-	NoRead      bool   `json:"noread"`
+	Writes       []int `json:"writes"`         // chunk sizes, written in order
+	Shutdown     bool  `json:"shutdown"`       // Shutdown(Write) after the last write
+	Close        bool  `json:"close"`          // Close() the endpoint once the writer (writes + shutdown) and the reader (EOS / error / read_max) are done
+	CloseAfterMS int   `json:"close_after_ms"` // ... after this pause
+	ReadMax      int   `json:"read_max"`       // stop reading after this many bytes (0 = until EOS)
+	ReadDelayUS  int   `json:"read_delay_us"`
+	ReadStartMS  int   `json:"read_start_ms"` // do not read before this
+	WriteGapUS   int   `json:"write_gap_us"`
+	RcvBuf       int   `json:"rcvbuf"`
+	SndBuf       int   `json:"sndbuf"`
+	ISS          []int `json:"iss"`           // [hi, lo] for the active opener (side a) via hook H4
+	ShutAfterMS  int   `json:"shut_after_ms"` // delay before shutdown
+	NoRead       bool  `json:"noread"`
 }
 
 type scenario struct {
@@ -94,16 +96,17 @@ func (l *elog) add(ev M) {
 }
 
 type side struct {
-	name  string
-	d     int // stream index written by this side
-	host  *wire.Host
-	link  *wire.Link
-	ep    tcpip.Endpoint
-	wq    *waiter.Queue
-	addr  tcpip.Address
-	cfg   app
-	iss   uint32
-	haveI bool
+	name      string
+	d         int // stream index written by this side
+	host      *wire.Host
+	link      *wire.Link
+	ep        tcpip.Endpoint
+	wq        *waiter.Queue
+	addr      tcpip.Address
+	cfg       app
+	iss       uint32
+	haveI     bool
+	appClosed bool // the scenario's application has Close()d the endpoint
 	// what this side advertised last (raw), and the window scale option of its SYN (-1: none)
 	wsOpt  int
 	advAck uint32
@@ -132,13 +135,13 @@ type frameQ struct {
 }
 
 type pair struct {
-	sc    scenario
-	log   *elog
-	a, b  *side
-	ch    [2]chan frameQ // 0: a->b, 1: b->a
-	infl  int64          // frames queued or held
-	done  chan struct{}
-	emits int64
+	sc      scenario
+	log     *elog
+	a, b    *side
+	ch      [2]chan frameQ // 0: a->b, 1: b->a
+	infl    int64          // frames queued or held
+	done    chan struct{}
+	emits   int64
 	napping int64
 }
 
@@ -728,10 +731,10 @@ func runPair(sc scenario) []M {
 		lg.add(M{"ev": "end", "why": why, "a": snap(p.a.ep, p.a, p.b), "b": snap(p.b.ep, p.b, p.a), "infl": int(atomic.LoadInt64(&p.infl))})
 		close(p.done)
 		p.a.link.OnEmit, p.b.link.OnEmit = nil, nil
-		if p.a.ep != nil {
+		if p.a.ep != nil && !p.a.appClosed {
 			p.a.ep.Close()
 		}
-		if p.b.ep != nil {
+		if p.b.ep != nil && !p.b.appClosed {
 			p.b.ep.Close()
 		}
 		lg.mu.Lock()
@@ -822,12 +825,35 @@ func runPair(sc scenario) []M {
 	lwq.EventUnregister(&lwe)
 	lg.add(M{"ev": "up", "e": "b", "err": ""})
 	release()
-	var wg sync.WaitGroup
-	wg.Add(4)
-	go p.writer(p.a, &wg)
-	go p.writer(p.b, &wg)
-	go p.reader(p.a, &wg)
-	go p.reader(p.b, &wg)
+	var wg, wa, wb sync.WaitGroup
+	wg.Add(2)
+	wa.Add(2)
+	wb.Add(2)
+	go p.writer(p.a, &wa)
+	go p.writer(p.b, &wb)
+	go p.reader(p.a, &wa)
+	go p.reader(p.b, &wb)
+	// an application that is done with both directions (own writes + shutdown issued, reader returned) may Close() its
+	// endpoint: the stack then forgets the connection as soon as its protocol goroutine has finished
+	closer := func(s *side, swg *sync.WaitGroup) {
+		defer wg.Done()
+		swg.Wait()
+		if s.cfg.Close {
+			select {
+			case <-p.done:
+				return
+			default:
+			}
+			if s.cfg.CloseAfterMS > 0 {
+				p.nap(time.Duration(s.cfg.CloseAfterMS) * time.Millisecond)
+			}
+			lg.add(M{"ev": "close", "e": s.name})
+			s.ep.Close()
+			s.appClosed = true
+		}
+	}
+	go closer(p.a, &wa)
+	go closer(p.b, &wb)
 	appsDone := make(chan struct{})
 	go func() { wg.Wait(); close(appsDone) }()
 	// quiescence monitor: wire empty, both protocol goroutines idle, no timer armed, stable -> a state, not a timeout
